@@ -55,6 +55,9 @@ def sh(cmd, cwd=None, timeout=3600, env=None):
     return p.returncode, p.stdout
 
 
+# the original, whatever the code under test may leave substituted in the subprocess module (finding D24)
+_POPEN = subprocess.Popen
+
 class BuildLock:
     def __enter__(self):
         os.makedirs(os.path.join(LEAN_DIR, ".lake"), exist_ok=True)
@@ -163,7 +166,7 @@ class Driver:
 
     def start(self):
         if self.p is None:
-            self.p = subprocess.Popen([DRIVER], stdin=subprocess.PIPE, stdout=subprocess.PIPE, text=True, bufsize=1 << 20)
+            self.p = _POPEN([DRIVER], stdin=subprocess.PIPE, stdout=subprocess.PIPE, text=True, bufsize=1 << 20)
 
     def ask_many(self, reqs):
         """Batch: write all requests, read all replies (a writer thread avoids pipe deadlock)."""
